@@ -1005,6 +1005,8 @@ class Interp:
             return Choice(alts[:-1] + [(rest, last[1])])
         if isinstance(o, self.models.LazySeq):
             return o.index(self, k)
+        if isinstance(o, self.models.SymDict):
+            return o.get(self, k, raise_=True)
         if isinstance(o, OpaqueVal):
             return self.models.opaque_subscript(self, o, k)
         if o is None:
